@@ -66,3 +66,9 @@ Inductive crvalue : Set :=
 
 (* ---- stack-size classes / per-size heaps of thread_queue *)
 Inductive sclass : Set := Small | Medium | Large | Huge | Nostack.
+
+(* ---- where thread_queue::create_thread replaces `thread_stacksize::current` by the class of the
+   creating task (get_self_stacksize_enum()), relative to its `if (data.run_now)` split:
+   before the split (both creation paths), only inside the run_now branch, only on the staged path
+   after it, or nowhere.  Regenerated from the source into Gen/GenSwapctx.current_resolution. *)
+Inductive cur_site : Set := CurBeforeSplit | CurRunNowOnly | CurStagedOnly | CurNever.
